@@ -139,6 +139,18 @@ let () =
     incr ncases;
     let (lhs, rhs) = split_arrow line in
     match split_ws lhs, split_ws rhs with
+    | ["RS"; id; _; _; _; _; _; _; _; _; _], [e; gen; _nf] ->
+        (* the custom collector's document changes shape inside a chunk: CollectRuntime either returns an error (the
+           files then hold a gap-free prefix of the samples) or delivers every sample, in order *)
+        let files = List.rev files in
+        let impl_err = (e = "1") in
+        let obs = List.map (fun (_, derr, ids, _) ->
+            (not derr, match ids with Some l -> List.map (fun i -> Some (z_of_int i)) l | None -> [None])) files in
+        let g = int_of_string gen in
+        if not (c19_ok_runtime obs (if impl_err || g < 0 then None else Some (z_of_int g))) then begin
+          incr viol;
+          Printf.printf "VIOL case=RS%s c19_ok_runtime=false err=%b generated=%s: samples are missing although no error was returned, or the files hold a gap :: %s\n"
+            id impl_err gen line end
     | [_; id; fl; co; sa; sg; ss; sp; par; nc; _cancel], rhs_toks ->
         let id = "RT" ^ id in
         let o = { ro_flush = z_of_string fl; ro_collect = z_of_string co; ro_samples = z_of_string sa;
@@ -218,7 +230,7 @@ let () =
          | _ -> failwith "bad L line")
     | "R" :: _ -> (match !cur_j with Some c -> c.jr <- List.tl (split_ws line) | None -> failwith "R without J")
     | "O" :: _ -> (match !cur_j with Some c -> c.jo <- (match split_ws line with [_; h] -> h | _ -> "") | None -> failwith "O without J")
-    | "RT" :: _ -> flush_cur (); cur_rt := Some (line, [])
+    | ("RT" | "RS") :: _ -> flush_cur (); cur_rt := Some (line, [])
     | "F" :: _ ->
         (match !cur_rt, split_ws line with
          | Some (l, fs), (_ :: idx :: derr :: rest) ->
